@@ -19,6 +19,7 @@ Theorem C15_steps_total : forall drain ri q0 tok0 tr s, let c := code_cfg drain 
   | PTick => forall o, can_step c s (LoopTick o)
   | PFetch => forall po v r pu, can_step c s (LoopFetch po v r pu)
   | PDispatch => can_step c s LoopDispatched
+  | PExit => True   (* only a loop whose context is cancelled returns; see C05_stale_loop_* *)
   | PSelect => (tok s = true /\ can_step c s SelTok) \/ (chan s = true /\ can_step c s SelTick) \/
                (armed s = true /\ exists s1 s2 s3, step c s (Adv (Z.max 0 (dl s - now s))) = Some s1 /\
                                    step c s1 TimerFire = Some s2 /\ step c s2 SelTick = Some s3)
